@@ -5,9 +5,11 @@
    of visitListItems included (its termination within the model's fuel is part of
    merge_total).  Hypotheses: [schema_ok s R], [family_refs s R], [R tr] (see C11).
    Proved: totality, validity of the result, identity laws (itself, nothing on either
-   side).  Not yet proved about the model (decided on the implementation's outcomes by
-   the extracted checkers): non-removal, right-wins, frame, field-set union, idempotence
-   of merging R again, associativity, the ordering laws. *)
+   side), right-hand side wins, nothing else changes (every leaf of the result is R's or
+   L's), merging R again is a no-op.  Not proved about the model (decided on the
+   implementation's outcomes by the extracted checkers): non-removal, field-set union, the
+   ordering laws; associativity is refuted across kind changes (last theorem, finding F18)
+   and decided by the checkers elsewhere. *)
 From Coq Require Import List ZArith String Bool.
 From SMD Require Import Model.Value Model.Order Model.PathElem Model.PathSet Model.Schema
   Model.Walk Model.Merge Spec.RefValid Spec.Resolve Spec.Examples Proofs.OrderLaws Proofs.SchemaOk
@@ -125,4 +127,25 @@ Theorem C12_merging_again_is_a_noop :
          merge s tr l r = Some (Some out) -> merge s tr out r = Some (Some out).
 Proof. exact merge_idempotent. Qed.
 Print Assumptions C12_merging_again_is_a_noop.
+
+(* "merging is associative" is FALSE of the faithful model and of the code (finding F18)
+   when one operand gives a field a value of another kind than another operand holds:
+   the thorough correspondence run found this triple on the implementation. *)
+From SMD Require Import Model.Validate Proofs.MergeAssoc.
+Theorem C12_associativity_refuted_across_kinds :
+  let s := ded_schema in
+         let tr := ded_named "deduced" in
+         conforms s tr false assoc_L = true /\
+         conforms s tr false assoc_R = true /\
+         conforms s tr false assoc_X = true /\
+         plain assoc_L = true /\
+         plain assoc_R = true /\
+         plain assoc_X = true /\
+         (exists lr rx a b : value,
+            merge s tr assoc_L assoc_R = Some (Some lr) /\
+            merge s tr assoc_R assoc_X = Some (Some rx) /\
+            merge s tr lr assoc_X = Some (Some a) /\
+            merge s tr assoc_L rx = Some (Some b) /\ veq_assoc s tr a b = false).
+Proof. exact merge_not_associative_across_kinds. Qed.
+Print Assumptions C12_associativity_refuted_across_kinds.
 
